@@ -148,7 +148,7 @@ let () =
         let cfg = { g_w = zi w; g_h = zi h; g_haspw = int_of_string np > 0; g_firstvo = zi fvo;
                     g_never = bi nev; g_always = bi alw; g_dontdisc = bi dd; g_deferptr = zi dp;
                     g_utf8cb = bi u8; g_variant = v } in
-        let wd = { w_srv = init_server cfg; w_lvcs = [] } in
+        let wd = { w_srv = init_server cfg; w_lvcs = []; w_sched = [] } in
         wld := Some wd; print_state "screen" wd []
     | _ when !wld = None -> Printf.printf "?? no screen: %s\n" line
     | ["connect"; id; vo] -> run "connect" [inop (OConnect (zi id, bi vo))]
@@ -182,4 +182,6 @@ let () =
     | ["rc_cut"; id; t] -> run "rc_cut" [WLvcCut (zi id, bytes_of_hex t)]
     | ["rc_utf8"; id; t] -> run "rc_utf8" [WLvcUTF8 (zi id, bytes_of_hex t)]
     | ["rc_pump"; id] -> run "rc_pump" [WLvcPump (zi id)]
+    | ["rc_sched"; id; sc] ->
+        run "rc_sched" [WLvcSched (zi id, List.map (fun x -> z_of_int (int_of_string x)) (String.split_on_char ',' sc))]
     | _ -> Printf.printf "?? %s\n" line)
